@@ -19,7 +19,10 @@
    With Deep = TRUE the edits are additionally applied on top of the combo presentation. *)
 EXTENDS SchemaModel, Json, IOUtils
 
-CONSTANTS Deep
+CONSTANTS Deep,   \* TRUE: the edits are also applied below the combo presentation
+          NRandU  \* number of seeded-random universes (env SEED)
+
+Seed == IF "SEED" \in DOMAIN IOEnv /\ IOEnv.SEED # "" THEN atoi(IOEnv.SEED) ELSE 1
 
 Str == Lf("string")
 U8 == Lf("u8")
@@ -95,9 +98,33 @@ UTwoSchemas == Universe(<<
   TStruct("x", "B", <<Field("w", "1", FALSE, U8)>>, <<>>),
   TStruct("y", "B", <<Field("w", "1", FALSE, U8)>>, <<>>) >>)
 
+(* seeded-random universes: 3..5 definitions (structs and enums) whose member types are drawn from a pool
+   of built-ins, generics over built-ins and (possibly recursive) references to the other definitions *)
+RandSchema(k) == "r" \o ToString(k)
+RandDefName(i) == "R" \o ToString(i)
+RandType(k, n, salt) ==
+  LET r == Rnd3(Seed, 97 * k + 5, salt)
+      d == Ext(RandSchema(k), RandDefName(((r \div 16) % n) + 1))
+      c == r % 16 IN
+  CASE c = 0 -> U8 [] c = 1 -> Str [] c = 2 -> Lf("bool") [] c = 3 -> Lf("i64") [] c = 4 -> Lf("uuid")
+    [] c = 5 -> Un("option", Str) [] c = 6 -> Un("vec", U8) [] c = 7 -> MapT(Str, Lf("u32"))
+    [] c = 8 -> d [] c = 9 -> Un("option", Un("box", d)) [] c = 10 -> Un("vec", d) [] c = 11 -> MapT(Str, d)
+    [] c = 12 -> ResT(d, Str) [] c = 13 -> Un("option", d) [] c = 14 -> ArrL(d, "2") [] OTHER -> Un("set", Lf("i32"))
+RandDef(k, n, i) ==
+  LET r == Rnd3(Seed, 31 * k + 1, i)
+      m == (r % 3) + 1
+      fb == IF (r \div 3) % 2 = 0 THEN <<>> ELSE <<"other">> IN
+  IF (r \div 6) % 4 = 0
+  THEN TEnum(RandSchema(k), RandDefName(i),
+             [j \in 1 .. m |-> Var("V" \o ToString(j), ToString(j), IF Rnd3(Seed, k, 10 * i + j) % 3 = 0 THEN <<>> ELSE <<RandType(k, n, 10 * i + j)>>)], fb)
+  ELSE TStruct(RandSchema(k), RandDefName(i),
+               [j \in 1 .. m |-> Field("f" \o ToString(j), ToString(j), Rnd3(Seed, k + 1, 10 * i + j) % 2 = 0, RandType(k, n, 10 * i + j))], fb)
+RandUniverse(k) == LET n == 3 + (Rnd3(Seed, k, 0) % 3) IN Universe([i \in 1 .. n |-> RandDef(k, n, i)])
+
 Universes == <<[name |-> "bookmarks_v2", P |-> UBookmarks], [name |-> "test", P |-> UTest], [name |-> "simple", P |-> USimple],
                [name |-> "nested", P |-> UNested], [name |-> "rec", P |-> URec], [name |-> "mutual", P |-> UMutual],
                [name |-> "service", P |-> UService], [name |-> "generic", P |-> UGeneric], [name |-> "twoschemas", P |-> UTwoSchemas]>>
+             \o [k \in 1 .. NRandU |-> [name |-> "random" \o ToString(k), P |-> RandUniverse(k)]]
 NU == Len(Universes)
 
 RECURSIVE WFT(_)
